@@ -82,7 +82,8 @@ def build(rules):
             calls.append((_idx, kw))
             return 'ok'
         handler.rule_idx = idx
-        app.route(r['text'], method=r['method'], callback=handler)
+        # overwrite=True on a method that is not registered yet is an ordinary registration through another code path
+        app.route(r['text'], method=r['method'], callback=handler, overwrite=bool(r.get('overwrite')))
 
     app, calls = fresh([])
     for idx in range(len(rules)):
@@ -310,12 +311,12 @@ def gen_ruleset(rng):
                 if it[0] == 'wild' and it[1] is not None and rng.random() < 0.7:
                     it[1] = it[1] + '2'
                 ast.append(it)
-            rules.append({'ast': ast, 'text': R.render(rng, ast), 'method': rng.choice(['POST', 'PUT'])})
+            rules.append({'ast': ast, 'text': R.render(rng, ast), 'method': rng.choice(['POST', 'PUT']), 'overwrite': rng.random() < 0.4})
             continue
         else:
             ast = R.gen_rule(rng)
         asts.append(ast)
-        rules.append({'ast': ast, 'text': R.render(rng, ast), 'method': 'GET'})
+        rules.append({'ast': ast, 'text': R.render(rng, ast), 'method': 'GET', 'overwrite': rng.random() < 0.15})
     return rules
 
 
@@ -341,7 +342,7 @@ def random_unit(ctx, unit):
         ctx.count('rules_refused', len(b.rejected))
         acc_rules = [rules[i] for i in b.accepted]
         flavour_counts(ctx, acc_rules)
-        desc = [{'ast': r['ast'], 'text': r['text'], 'method': r['method']} for r in rules]
+        desc = [{'ast': r['ast'], 'text': r['text'], 'method': r['method'], 'overwrite': bool(r.get('overwrite'))} for r in rules]
         paths = R.gen_paths(rng, [rules[i]['ast'] for i in b.accepted], unit['paths'])
         tkey = tuple(r['text'] + r['method'] for r in acc_rules)
         for path in paths:
